@@ -15,7 +15,7 @@ def run(chk, replay=None):
         stats = {}
     else:
         tour, st1 = vf.tlc_gen("TaskGen.tla", "TaskGenTour.cfg")
-        allp, st2 = vf.tlc_gen("TaskGen.tla", "TaskGenAll.cfg", env={"QXV_MAXHIST": 5 if quick else 6})
+        allp, st2 = vf.tlc_gen("TaskGen.tla", "TaskGenAll.cfg" if quick else "TaskGenAll6.cfg")
         sim, st3 = vf.tlc_simulate("TaskGen.tla", "TaskGenTour.cfg", num=200 if quick else 5000, depth=14, seed=chk.seed)
         behs = vf.maximal_behaviours(tour + allp + sim)
         chk.cov["generation"] = {"tour": st1, "all_paths": st2, "simulate": st3}
